@@ -10,46 +10,46 @@ NOTE = ('necessary structural conditions are decided on every path / call site /
         '/verif/seeded and /verif/selftest), the oracle tables in DESIGN.md, Linux cfg only.')
 
 CLAIMED = {
- 'C01': ('must-fill ghost-state abstract interpretation of the read handlers, alignment/interval facts for the zero-once request, data-dependence pairing and dispatch rules',
-         'every Ok(n != 0) of a read handler is preceded by a fill of the caller buffer on all paths, backend read counts are compared with the requested length, zero-once covers exactly the cluster, installed fresh clusters are registered as new, every mapping kind is dispatched, L2 entries are classified as the specification says (216 descriptor partitions), an installed host cluster lies inside the granted run, the span released for a replaced compressed extent is exactly what it touches; index arithmetic of the lookup/split, overlay order and equality with a reference disk not decided', 'C01'),
+ 'C01': ('must-fill ghost-state abstract interpretation of the read handlers, alignment/interval facts for the zero-once request, data-dependence pairing and dispatch rules, bit evaluation of entry predicates over the descriptor partitions, sweep typestate of the flow closure',
+         'every Ok(n != 0) of a read handler is preceded by a fill of the caller buffer on all paths, backend read counts are compared with the requested length, zero-once covers exactly the cluster, installed fresh clusters are registered as new, every mapping kind is dispatched, L2 entries are classified as the specification says (216 descriptor partitions), an installed host cluster lies inside the granted run, the span released for a replaced compressed extent is exactly what it touches, entry predicates consulted on the read path follow the cluster kind, every Ok flush_meta/shrink_caches has swept every metadata kind (reopen clause); index arithmetic of the lookup/split, overlay order and equality with a reference disk not decided', 'C01'),
  'C02': ('dirty-tracking typestate over the async call graph (tabulating abstract interpretation)',
-         'mutation=>dirty, victims=>flusher, cleared=>written, complete sweeps before Ok, zero-once not bypassed, whole-slice writes, no cache entry dropped without a dirty-flag decision, flag cleared no later than the release of the guard held across the write, popped top-table block written before Ok, in-use slices not preferred for eviction: decided on all paths of all public operations; byte equality after reopen not decided', 'C02'),
+         'mutation=>dirty, victims=>flusher, cleared=>written, complete sweeps before Ok, zero-once not bypassed, whole-slice writes, no cache entry dropped without a dirty-flag decision, flag cleared no later than the release of the guard held across the write, popped top-table block written before Ok, in-use slices not preferred for eviction, a block of a top table is written where it was taken from, the flag protocol the flag read relies on (C18.2): decided on all paths of all public operations; byte equality after reopen not decided', 'C02'),
  'C04': ('backend-effect ordering typestate with history closure (tabulating abstract interpretation over MIR)',
          'ordering obligations O1-O8 + phase rule at every backend write on every path, closed over all API histories; crash images themselves not decided', 'C04'),
  'C05': ('must-pass-through / typestate over the async call graph + sibling check of the fsync implementations',
-         'fsync_range reaches the barrier, every backend fsync reaches a sync primitive, flush_meta complete on every Ok path, slices written whole and only after zero-once resolution, runs returned by the allocator built from adjacent pieces only, every flush phase under the flush mutex, in-use slices not preferred for eviction; per-block crash values not decided', 'C05'),
+         'fsync_range reaches the barrier, every backend fsync reaches a sync primitive, flush_meta complete on every Ok path, slices written whole and only after zero-once resolution, runs returned by the allocator built from adjacent pieces only, every flush phase under the flush mutex, in-use slices not preferred for eviction, dirty entries never dropped from the cache, partial table writes land where they were taken from, sums of a run count only with adjacent pieces; per-block crash values not decided', 'C05'),
  'C06': ('held-lock dataflow at request creation/poll, guard provenance of decisions and mutations (critical-section rules)',
          'linearizability over schedules is NOT decided; decided are necessary critical-section conditions: check-then-act under one slice write guard, requests created under the per-cluster guard complete under it, COW merge under per-cluster and L2 slice write guards, eviction prefers unused entries (test present and not subordinated in an ordering key), entries leave the cache only unused, a cached slice is reloaded from the file only behind an is_update() test', 'C06'),
  'C07': ('held-lock dataflow, mode-aware lock-order cycle search, guard-across-await scan, insert/lookup typestate',
-         'deadlock clause: lock-order relation acyclic (mode aware, one thread per device), no self re-acquisition (one finding per route), no blocking guard across awaits, no suspension between cache insert and re-lookup; livelock/termination not decided', 'C07'),
+         'deadlock clause: lock-order relation acyclic (mode aware, one thread per device), no self re-acquisition (one finding per route), no blocking guard across awaits, no suspension between cache insert and re-lookup, victim selection looks at the reference count (an entry whose loader is suspended is not evicted while unused ones exist); livelock/termination not decided', 'C07'),
  'C03': ('bit-provenance abstract interpretation of the installers, must-use def-use of the displaced allocation, data-dependence provenance of every release',
-         'COPIED flag and offset field of installed L1/L2 entries, fate of the allocation displaced by map_cluster, source of every free_clusters argument, no constant-zero release count, check-then-act under one slice guard, release of the fresh cluster when a COW step fails: decided at every site; equality of stored and counted references (arithmetic of spans and counts) not decided', 'C03'),
+         'COPIED flag and offset field of installed L1/L2 entries, fate of the allocation displaced by map_cluster, source of every free_clusters argument, no constant-zero release count, check-then-act under one slice guard, release of the fresh cluster when a COW step fails, pieces of an abandoned run released, displaced allocation released once: decided at every site; equality of stored and counted references (arithmetic of spans and counts) not decided', 'C03'),
  'C11': ('alignment/interval abstract interpretation of the discard walk (order facts, loop invariants), dominance and data-dependence rules on the per-cluster routine, path-condition typed constants',
          'inward rounding and clipping of the walked range, exact one-cluster advance, argument-independent success, no-op exits dominate every mutation, stored entry keeps zeros with a backing file, provenance of release and punch, zero-write fallback for every failure of the request, release/punch adjacency, decision and clearing under one slice guard, clipping arithmetic on the raw arguments bounded by a check or a clipping operation: decided on every path; bytes read after discard and persistence not decided', 'C11'),
  'C12': ('backend-effect ordering typestate (growth sites of the C04 engine), fault-model typestate for the rollback, data-dependence provenance of the rollback closure, dominance of the zero-length guard, held-lock dataflow',
-         'header switch after the relocated table is synced, old table released after the synced switch, rollback runs and restores old-state values, directly written refblock private and zero-padded, zero-length requests filtered, no self-deadlock on the growth path, the count mirrored into the L1 table equals the count committed to the header, installs stay inside a short grant at a refblock boundary, the table copy leaves its source untouched, no top-table write in the group that zeroes its range; computed sizes not decided', 'C12'),
+         'header switch after the relocated table is synced, old table released after the synced switch, rollback runs and restores old-state values, directly written refblock private and zero-padded, zero-length requests filtered, no self-deadlock on the growth path, the count mirrored into the L1 table equals the count committed to the header, installs stay inside a short grant at a refblock boundary, the table copy leaves its source untouched, no top-table write in the group that zeroes its range, new-cluster mark before the slice of a freshly installed table cluster is inserted; computed sizes not decided', 'C12'),
  'C09': ('interval abstract interpretation with value numbering (constant propagation per cluster size x refcount width, order facts), header layout scan',
-         'version-2 defaults at every Ok exit of the parser, header layout and codec configuration, panic freedom of the device constructor over the accept set (182 configurations), derived geometry = specification formulas in 91 configurations, bounce read of a compressed cluster covers the data, classification of every L2 descriptor partition, table cluster counts of the formatter cover the byte sizes, extension cursor 8-aligned, no rejecting branch on a header field behind a 104-byte header without a test of header_length, L1 entry count covers the size and equals the header l1_size; agreement of reads with an independent implementation and validity of formatted images not decided', 'C09'),
+         'version-2 defaults at every Ok exit of the parser, header layout and codec configuration, panic freedom of the device constructor over the accept set (182 configurations), derived geometry = specification formulas in 91 configurations, bounce read of a compressed cluster covers the data, classification of every L2 descriptor partition, table cluster counts of the formatter cover the byte sizes, extension cursor 8-aligned, no rejecting branch on a header field behind a 104-byte header without a test of header_length, L1 entry count covers the size and equals the header l1_size, derived geometry also with custom cache parameters (84 configurations with different slice sizes), entry predicates on the read path follow the cluster kind; agreement of reads with an independent implementation and validity of formatted images not decided', 'C09'),
  'C14': ('interval abstract interpretation over MIR (value numbering, order facts, widening, cluster_bits partitioning, small value sets for enum discriminants)',
          'accept set of the header parser at every Ok exit, panic freedom of the parser, the extension parser and the device constructor for every byte string / accepted header, bounded refcount-table allocation, progress of the extension walk, inflate status accept set, entry lookups of the L1 / L2 / refcount table total for every index; operations on devices with malformed L1/L2/refcount tables not decided', 'C14'),
  'C15': ('bit-provenance abstract interpretation of accessor and packing code against the specification bit tables; layout and configuration scans; field-use agreement of inverse key functions',
-         'accessor bit fields, compressed descriptor split (13 cluster sizes), refcount get/set for 7 widths x 16 indices, byte-order symmetry, header layout and serialiser configuration, backing-name offset provenance, 8-aligned extension cursor in the parser and unpadded length field in the serialiser, cluster_offset composes the indices back to the offset, every sector-count bit of a compressed descriptor reaches the decoded length; arithmetic results and round trips not decided', 'C15'),
+         'accessor bit fields, compressed descriptor split (13 cluster sizes), refcount get/set for 7 widths x 16 indices, byte-order symmetry, header layout and serialiser configuration, backing-name offset provenance, 8-aligned extension cursor in the parser and unpadded length field in the serialiser, cluster_offset composes the indices back to the offset, every sector-count bit of a compressed descriptor reaches the decoded length, the constructor derives the geometry fields the address functions use as specified (default and custom cache parameters); arithmetic results and round trips not decided', 'C15'),
  'C16': ('alignment abstract interpretation (multiples of 2^shift with symbolic block/slice/cluster shifts over the interval engine), modular assume/guarantee over the async call graph, buffer provenance',
          'offset, length and buffer of every backend read/write/zero request, sizes of all table buffers and all recorded table offsets are block multiples on every path, from the validated public API down to the trait calls; assumes cluster >= slice >= block, cluster-aligned host offsets in a spec-valid image, an aligned caller buffer', 'C16'),
  'C17': ('error-value def-use discipline + restore/undo typestate in the fault model',
-         'no dropped Qcow2Result and no error-discarding combinator; restore and release when a COW step fails; flags/queue entries restored on error exits; rollback and zero-write fallback on failing requests; no shrink after a failed flush and no short-circuiting join over table writes while a failed write leaves its slice clean; state after retries not decided', 'C17'),
+         'no dropped Qcow2Result, no error-discarding combinator and no Err arm that neither reads the error nor acts; restore and release when a COW step fails; flags/queue entries restored on error exits; rollback and zero-write fallback on failing requests; no shrink after a failed flush and no short-circuiting join over table writes while a failed write leaves its slice clean; state after retries not decided', 'C17'),
  'C08': ('guard provenance + no-suspension scan/increment rule, control/data dependence of the free-hint updates, path-sensitive run-restart pairing',
-         'scan+increment atomic under one guard, allocated range derives from the scan, hint updates guarded, release decided under the unmapping guard, run start re-established on restart, pieces of a returned run compared for adjacency, installed clusters inside the granted run, in-use test of the eviction not subordinated, previous entry put back when a COW step fails; numeric ownership not decided', 'C08'),
+         'scan+increment atomic under one guard, allocated range derives from the scan, hint updates guarded, release decided under the unmapping guard, run start re-established on restart, pieces of a returned run compared for adjacency (also where the count is summed into a release), installed clusters inside the granted run, in-use test of the eviction not subordinated, previous entry put back when a COW step fails; numeric ownership not decided', 'C08'),
  'C10': ('guarded reachability (read-only test / dirty-token gates as path facts over the async call graph), dominance and provenance rules',
-         'every primary modifying effect lies behind a read-only test or a dirty-token test on every path from every public method; backing devices forced read-only; only reads on the backing receiver; COW structural conditions, roll-back of a failed copy, no fresh install for Compressed/Backing mappings outside the COW routine (abstract interpretation per forced mapping kind); byte-level merge not decided', 'C10'),
- 'C13': ('dominance of validation checks over every suspension point + flow-aware data-dependence slices (taint of raw arguments into overflow-checked arithmetic)',
-         'validation checks exist, reject without suspending and dominate every await; no overflow-checked arithmetic on raw arguments before a check on them (additions need a bounding check), zero-length write returns before any mapping work; beyond-the-end credit only for backing devices, device-kind flag predicates test separate bits; arithmetic results not decided', 'C13'),
+         'every primary modifying effect lies behind a read-only test or a dirty-token test on every path from every public method; backing devices forced read-only; only reads on the backing receiver; COW structural conditions, roll-back of a failed copy, no fresh install for Compressed/Backing mappings outside the COW routine (abstract interpretation per forced mapping kind), the flag word built by the constructor answers the read-only / backing predicates for every combination, no error-discarding combinator on the COW path; byte-level merge not decided', 'C10'),
+ 'C13': ('dominance of validation checks over every suspension point + flow-aware data-dependence slices (taint of raw arguments into overflow-checked arithmetic) + interval abstract interpretation of the validating bodies and of the flag word',
+         'validation checks exist, reject without suspending and dominate every await; no overflow-checked arithmetic on raw arguments before a check on them (additions need a bounding check), zero-length write returns before any mapping work; beyond-the-end credit only for backing devices, device-kind flag predicates test separate bits and the flag word of the constructor answers them for every combination, constant decrements in the validating bodies proved not to underflow (interval analysis); other arithmetic results not decided', 'C13'),
  'C18': ('flag-protocol typestate over the async call graph + loop/phase dominance rule',
-         'need_flush raised adjacent to every dirtying event; lowered only before complete sweeps of every metadata kind and raised again (with a value that is true on that path) before every error return, with and without backend faults; refcount sweep in every flush pass; cache entries dropped only unused; agreement of file and memory as such not decided', 'C18'),
+         'need_flush raised adjacent to every dirtying event; lowered only before complete sweeps of every metadata kind and raised again (with a value that is true on that path) before every error return, with and without backend faults; refcount sweep in every flush pass; cache entries dropped only unused and never while dirty; agreement of file and memory as such not decided', 'C18'),
  'C19': ('sibling cross-check of the three Qcow2IoOps implementations (data-dependence slices, dominance, loop/accumulation rule) + fault-model typestate for the punch fallback',
          'read count provenance, short-write handling, flush of buffered writers, offset pass-through, a read primitive that reports short reads, shared punch helper and flags with the requested range passed unchanged and no Ok bypassing the syscall, zero-write fallback, sync primitive reachability agree across the three backends; equality with the host-file model not decided', 'C19'),
  'C20': ('alignment abstract interpretation of the rqcow2 target, must-pass-through on the copy routines, data-dependence and sibling field-agreement rules on the leak check',
-         'block-multiple buffer lengths and aligned buffers at every read_at/write_at of the CLI, every chunk read is written, leak verdict reaches Err, scan bound uses the geometry fields of the refcount-table index, used-cluster set covers every mapping kind holding a host cluster and exactly the clusters a compressed extent touches, guest walks cover the virtual size, formatter cluster counts cover the table sizes, no arithmetic-overflow panic of the CLI on header fields, in-use set not fed from Backing mappings, L1 entry count covers the size and equals the header l1_size; byte equality of convert and validity of formatted images as such not decided', 'C20'),
+         'block-multiple buffer lengths and aligned buffers at every read_at/write_at of the CLI, every chunk read is written, leak verdict reaches Err, scan bound uses the geometry fields of the refcount-table index and falls back to the table size when the table is full, used-cluster set covers every mapping kind holding a host cluster and exactly the clusters a compressed extent touches, guest walks cover the virtual size, formatter cluster counts cover the table sizes, no arithmetic-overflow panic of the CLI on header fields, in-use set not fed from Backing mappings, L1 entry count covers the size and equals the header l1_size; byte equality of convert and validity of formatted images as such not decided', 'C20'),
 }
 
 PENDING_REASON = 'rule engine for this property is not finished/validated yet (DESIGN.md section 7: not shipped as a proxy)'
